@@ -42,6 +42,7 @@ def gen_cfg(rng, tier: str, big: bool = False, kind: str | None = None) -> dict:
         if kind == "stream":
             cfg["stream_pad"] = rng.choice(["tight", "tight", "stride", "stride", "slack"])
         if kind == "hosted":
+            cfg["compressed_grains"] = grain >= 8 and rng.random() < 0.15
             # grain tables / grains in the upper half of the 32-bit sector range (an extent file between 1 and 2 TiB)
             cfg["far"] = rng.choice(["data31", "datatop", "gt31", "all31"]) if (big and rng.random() < 0.7) or rng.random() < 0.1 else False
     elif kind == "cowd":
@@ -183,8 +184,23 @@ def _render_kdmv(cfg, layer, view, name, parent_cid, parent_hint, extent_name) -
         place = {u: overhead + slots[u] * grain for u in need}
         assert all(v + grain <= (1 << 32) for v in place.values())
         used = set()
+        packed = bool(cfg.get("compressed_grains"))
+        if packed:
+            flags |= FLAG_COMPRESSED | FLAG_MARKERS
         for u in need:
             a, b = layer.urange(u)
+            if packed:
+                # compressed grains in the tables-first layout (the compression flag is not tied to the stream-optimised one):
+                # each grain slot holds a record - embedded LBA, compressed size, deflate stream - and slack
+                raw = view.sectors(a, b)
+                raw += bytes((grain - (b - a)) * 512)
+                comp = zlib.compress(raw, cfg.get("level", 6))
+                if 12 + len(comp) <= grain * 512:
+                    f.write(place[u] * 512, struct.pack("<QI", a, len(comp)))
+                    f.write_blob(place[u] * 512 + 12, comp)
+                    used.add(slots[u])
+                    continue
+                packed_fail = True  # (cannot happen with pattern data; kept for safety)
             put_view(f, place[u] * 512, view, a, b)
             if b - a < grain:
                 put_poison(f, (place[u] + (b - a)) * 512, (grain - (b - a)) * 512, 0xB10C)
